@@ -586,7 +586,8 @@ const maxCharPadding = 10000
 
 func filterCenter(in *Value, param *Value) (*Value, *Error) {
 	width := param.Integer()
-	slen := in.Len()
+	// (the width of what is padded is that of its text, also for a number)
+	slen := utf8.RuneCountInString(in.String())
 	if width <= slen {
 		return in, nil
 	}
@@ -690,7 +691,8 @@ func filterLinenumbers(in *Value, param *Value) (*Value, *Error) {
 }
 
 func filterLjust(in *Value, param *Value) (*Value, *Error) {
-	times := param.Integer() - in.Len()
+	// (the width of what is padded is that of its text, also for a number)
+	times := param.Integer() - utf8.RuneCountInString(in.String())
 	if times < 0 {
 		times = 0
 	}
